@@ -6,6 +6,7 @@ package main
 import (
 	"fmt"
 	"os"
+	"os/exec"
 	"runtime/debug"
 	"sort"
 	"strings"
@@ -34,7 +35,9 @@ type RunConfig struct {
 	Verbose          bool
 	AllocIsViolation bool
 	PanicIsViolation bool
+	SchedFixed       bool // option sched_fixed: no decision at blocking/exit switches (first enabled thread runs)
 	SamplePaths      int
+	ShadowBin        string // second solver cross-checking assertion verdicts ("" = off)
 }
 
 func defaultConfig(tier string) *RunConfig {
@@ -46,6 +49,12 @@ func defaultConfig(tier string) *RunConfig {
 		c.TimeoutMs = 60000
 		c.MaxPaths = 2000000
 		c.Workers = 16
+		if p, err := exec.LookPath("z3"); err == nil && os.Getenv("KSE_NO_SHADOW") == "" {
+			c.ShadowBin = p // z3 4.8.12 cross-checks the verdicts of z3 5.1 on assertion queries
+		}
+	}
+	if s := os.Getenv("KSE_SHADOW"); s != "" {
+		c.ShadowBin = s
 	}
 	return c
 }
@@ -331,7 +340,13 @@ func explore(w *World, cfg *RunConfig, fn *ssa.Function) *HarnessResult {
 				return
 			}
 			defer s.Close()
-			infoCache := map[*ssa.Function]*fnInfo{}
+			if cfg.ShadowBin != "" {
+				if sh, err := newSolver(cfg.ShadowBin, 3000, ""); err == nil {
+					s.shadow = sh
+					defer sh.Close()
+				}
+			}
+			infoCache :=map[*ssa.Function]*fnInfo{}
 			for {
 				mu.Lock()
 				for len(stack) == 0 && inflight > 0 && !stop {
